@@ -169,12 +169,17 @@ def r_loading(repo, rep, R='R17.3'):
     """read_params builds dictionary and tables by parsing every string and erasing X / nb in seen rules"""
     mod = repo.module('depccg/allennlp/utils.py')
     fn = mod.get('read_params')
-    t = src(fn)
     w = 'depccg/allennlp/utils.py:%s read_params' % fn.lineno
-    rep.check("params.pop('cat_dict')" in t and 'Category.parse(cat) for cat in cats' in t, R, w, 'read_params:cat_dict',
-              'the dictionary maps each word to its parsed categories', 'cat_dict loading changed')
-    rep.check("clear_features('X', 'nb')" in t and t.count("clear_features('X', 'nb')") == 2, R, w, 'read_params:seen_rules',
-              'seen rules are stored with X and nb erased on both sides (the key apply_binary_rules looks up)', 'seen-rule normalisation changed')
+    erase = [n for n in ast.walk(fn) if isinstance(n, ast.Call) and isinstance(n.func, ast.Attribute) and n.func.attr == 'clear_features'
+             and {a.value for a in n.args if isinstance(a, ast.Constant)} == {'X', 'nb'} and len(n.args) == 2
+             and isinstance(n.func.value, ast.Call) and src(n.func.value.func) == 'Category.parse']
+    in_pair = [n for n in ast.walk(fn) if isinstance(n, ast.SetComp) and isinstance(n.elt, ast.Tuple) and len(n.elt.elts) == 2
+               and all(e in erase for e in n.elt.elts)]
+    rep.check(len(erase) == 2 and len(in_pair) == 1, R, w, 'read_params:seen_rules',
+              'seen rules are stored as pairs with X and nb erased on both sides (the key apply_binary_rules looks up)', 'seen-rule normalisation changed')
+    dc = [n for n in ast.walk(fn) if isinstance(n, ast.DictComp) and isinstance(n.value, ast.ListComp) and isinstance(n.value.elt, ast.Call)
+          and src(n.value.elt.func) == 'Category.parse' and "pop('cat_dict')" in src(n.generators[0].iter)]
+    rep.check(len(dc) == 1, R, w, 'read_params:cat_dict', 'the dictionary maps each word to its parsed categories', 'cat_dict loading changed')
 
 
 def check(repo, rep, tier):
